@@ -51,6 +51,9 @@ CHECKS = {
  "C15": ("proptest-generated applications assembled from a compiled handler catalogue (mounts, param prefixes, tags, JWT/BasicAuth fangs at any level); oracle = JSON parse + JSON Schema 2020-12 meta-validation of every embedded schema (Python jsonschema sidecar) + $ref resolution + set equality with the flattened route table + per-operation expectations from the handler signature + one real request per documented operation",
          "Exploration of configurations: 6 000 (quick) generated applications, each document checked completely in both directions (documented ⇔ registered). Right level: the document is a pure function of the configuration; its defects depend on signature/route combinations.",
          "mounts get a first segment of their own; tags and operationId uniqueness unchecked; python3-vt + jsonschema available", "DESIGN.md §7 C15"),
+ "C16": ("proptest-generated *programs* (batches of 24 type definitions over the serde/openapi attribute grammar) → written out, compiled with rustc against ohkami/serde built from /repo, run; differential oracle against serde_json's behaviour of the same types (keys written, requiredness probes by deleting keys, instance validation through the Python jsonschema sidecar)",
+         "Exploration of programs: 168 (quick) batches ≈ 4 000 generated type definitions per run, each judged on 10 generated values. Right level: the quantifier ranges over type definitions; compile-and-run is the only way to observe a proc-macro, and generation reaches attribute/name combinations no example lists.",
+         "the crate's nullability convention `nullable: true` is read as `or null`; definitions the derive refuses at compile time (kebab-case renames, names with dashes, flatten) have no derived schema and are counted, not judged; grammar without serde(with)/generics", "DESIGN.md §7 C16"),
  "C17": ("proptest-generated message sequences × producer schedules (scripted Pending polls on the harness's own executor) through the real handler/stream/serializer; oracle chain: independent response parser → strict chunk decoder (cross-checked with chunked_transfer) → independent WHATWG event-stream parser",
          "Exploration of inputs × schedules: 60 000 (quick) sequences of up to 12 adversarial messages under scripted paces for two producer kinds. Right level: the property is about what a conforming client decodes; an independent decoder chain is the direct oracle, and the schedule is owned by the harness.",
          "a self-waking Pending models any pace of the producer; messages without NUL", "DESIGN.md §7 C17"),
